@@ -253,7 +253,10 @@ pub fn families(ctx: &Ctx) -> Vec<Family> {
     fams.push(Family::new("soup", tier.pick(200, 3000), |_c, rng, emit| {
         for _ in 0..50 {
             let n = 1 + rng.below(8);
-            let text = soup_program(rng, n);
+            let mut text = soup_program(rng, n);
+            if rng.chance(1, 12) {
+                text.insert(0, '\u{feff}');
+            }
             let case = with_includes(rng, text, &mut |r| {
                 let n = 1 + r.below(4);
                 soup_program(r, n)
@@ -290,7 +293,7 @@ pub fn families(ctx: &Ctx) -> Vec<Family> {
         for _ in 0..50 {
             let p = crate::gen::sem::program(rng, crate::gen::sem::Opts::WithProbes);
             let mut files = p.files.clone();
-            match rng.below(5) {
+            match rng.below(6) {
                 0 => {
                     let k = rng.below(files.len());
                     files[k].1 = mutate::prefix_at(&files[k].1, rng);
@@ -304,6 +307,11 @@ pub fn families(ctx: &Ctx) -> Vec<Family> {
                 2 => {
                     let k = rng.below(files.len());
                     files[k].1 = mutate::insert_non_ascii(&mutate::char_noise(&files[k].1, rng, 2), rng, 2);
+                }
+                3 => {
+                    // an otherwise well-formed file that starts with a byte order mark
+                    let k = rng.below(files.len());
+                    files[k].1.insert(0, '\u{feff}');
                 }
                 _ => {}
             }
